@@ -45,15 +45,16 @@ var (
 func bvSort(w int) Sort { return Sort{k: sBV, w: w} }
 
 type node struct {
-	id    int
-	op    string // "const", "sym", or SMT operator (possibly indexed, e.g. "(_ extract 7 0)")
-	args  []*node
-	sort  Sort
-	c     bool     // constant?
-	cv    uint64   // BV / Bool constant value
-	iv    *big.Int // Int constant value
-	name  string   // symbol name
-	depth int
+	id     int
+	op     string // "const", "sym", or SMT operator (possibly indexed, e.g. "(_ extract 7 0)")
+	args   []*node
+	sort   Sort
+	c      bool     // constant?
+	cv     uint64   // BV / Bool constant value
+	iv     *big.Int // Int constant value
+	name   string   // symbol name
+	depth  int
+	lo, hi *big.Int // known bounds of an Int-sorted term (nil: unknown)
 }
 
 type Term = *node
@@ -129,8 +130,18 @@ func (tb *TB) BV(v uint64, w int) Term {
 }
 
 func (tb *TB) IntBig(v *big.Int) Term {
-	return tb.mk(&node{op: "const", sort: intSort, c: true, iv: new(big.Int).Set(v)}, "int:"+v.String())
+	c := new(big.Int).Set(v)
+	return tb.mk(&node{op: "const", sort: intSort, c: true, iv: c, lo: c, hi: c}, "int:"+v.String())
 }
+
+// SetBounds records known bounds of an Int term (facts the caller has established, e.g. by assumption).
+func (tb *TB) SetBounds(t Term, lo, hi *big.Int) {
+	tb.mu.Lock()
+	t.lo, t.hi = lo, hi
+	tb.mu.Unlock()
+}
+
+func bounded(a Term) bool       { return a.lo != nil && a.hi != nil }
 func (tb *TB) Int(v int64) Term { return tb.IntBig(big.NewInt(v)) }
 
 // Sym creates a fresh symbol.
@@ -235,7 +246,18 @@ func (tb *TB) Ite(c, a, b Term) Term {
 			return tb.And(c, a)
 		}
 	}
-	return tb.app("ite", a.sort, c, a, b)
+	r := tb.app("ite", a.sort, c, a, b)
+	if a.sort.k == sInt && bounded(a) && bounded(b) && r.lo == nil {
+		lo, hi := a.lo, a.hi
+		if b.lo.Cmp(lo) < 0 {
+			lo = b.lo
+		}
+		if b.hi.Cmp(hi) > 0 {
+			hi = b.hi
+		}
+		tb.SetBounds(r, lo, hi)
+	}
+	return r
 }
 
 func (tb *TB) Eq(a, b Term) Term {
@@ -717,7 +739,11 @@ func (tb *TB) IAdd(a, b Term) Term {
 	if b.c && b.iv.Sign() == 0 {
 		return a
 	}
-	return tb.app("+", intSort, a, b)
+	r := tb.app("+", intSort, a, b)
+	if bounded(a) && bounded(b) && r.lo == nil {
+		tb.SetBounds(r, new(big.Int).Add(a.lo, b.lo), new(big.Int).Add(a.hi, b.hi))
+	}
+	return r
 }
 func (tb *TB) ISub(a, b Term) Term {
 	if a.c && b.c {
@@ -729,7 +755,11 @@ func (tb *TB) ISub(a, b Term) Term {
 	if a == b {
 		return tb.Int(0)
 	}
-	return tb.app("-", intSort, a, b)
+	r := tb.app("-", intSort, a, b)
+	if bounded(a) && bounded(b) && r.lo == nil {
+		tb.SetBounds(r, new(big.Int).Sub(a.lo, b.hi), new(big.Int).Sub(a.hi, b.lo))
+	}
+	return r
 }
 func (tb *TB) IMul(a, b Term) Term {
 	if a.c && b.c {
@@ -746,7 +776,21 @@ func (tb *TB) IMul(a, b Term) Term {
 			return a
 		}
 	}
-	return tb.app("*", intSort, a, b)
+	r := tb.app("*", intSort, a, b)
+	if bounded(a) && bounded(b) && r.lo == nil {
+		ps := []*big.Int{new(big.Int).Mul(a.lo, b.lo), new(big.Int).Mul(a.lo, b.hi), new(big.Int).Mul(a.hi, b.lo), new(big.Int).Mul(a.hi, b.hi)}
+		lo, hi := ps[0], ps[0]
+		for _, p := range ps[1:] {
+			if p.Cmp(lo) < 0 {
+				lo = p
+			}
+			if p.Cmp(hi) > 0 {
+				hi = p
+			}
+		}
+		tb.SetBounds(r, lo, hi)
+	}
+	return r
 }
 
 // IDivFloor / IModFloor are SMT-LIB div/mod (floor for positive divisor).
@@ -789,10 +833,15 @@ func (tb *TB) IWrap(a Term, w int, sg bool) Term {
 		}
 		return tb.IntBig(m)
 	}
-	if a.op == "wrapmark" {
-		var w0 int
-		var s0 bool
-		fmt.Sscanf(a.name, "%d %t", &w0, &s0)
+	if bounded(a) {
+		lo, hi := big.NewInt(0), new(big.Int).Sub(two, big.NewInt(1))
+		if sg {
+			lo = new(big.Int).Neg(new(big.Int).Rsh(two, 1))
+			hi = new(big.Int).Sub(new(big.Int).Rsh(two, 1), big.NewInt(1))
+		}
+		if a.lo.Cmp(lo) >= 0 && a.hi.Cmp(hi) <= 0 {
+			return a // cannot wrap
+		}
 	}
 	t2 := tb.IntBig(two)
 	if !sg {
